@@ -101,7 +101,8 @@ theorem calcWidths_ne (fl : Flags) (t : Table) (maxWidth : Int) (h : t.columns â
       | none => none
       | some widths =>
         if widths.sum > maxWidth then
-          t.padWidths fl (t.shrinkWidths widths maxWidth).1 (t.shrinkWidths widths maxWidth).2 maxWidth
+          t.padWidths fl (t.shrinkWidths widths maxWidth).1
+            (if fl.staleTableWidth then (t.shrinkWidths widths maxWidth).2 else (t.shrinkWidths widths maxWidth).1.sum) maxWidth
         else t.padWidths fl widths widths.sum maxWidth := by
   unfold Table.calcWidths
   have : t.columns.isEmpty = false := by
